@@ -793,13 +793,31 @@ package tally
 //@   loop 4 invariant @deleting s.histograms != nil && (forall k string :: seen(k) ==> !(k in s.histograms)) && len(s.counters) == 0 && len(s.gauges) == 0 && len(s.timers) == 0 && quiet()
 
 //@ pred bucketInv(b *scopeBucket) { b != nil && b.s != nil && (forall k string :: k in b.s ==> b.s[k] != nil && scopeWF(b.s[k])) }
-//@ pred registryWF(r *scopeRegistry) { regWF0(r) && scopeWF(r.root) && r.root.registry == r }
+//@ pred cardWF(r *scopeRegistry) { r.root.cachedReporter != nil && !r.omitCardinalityMetrics ==> r.cachedCounterCardinalityGauge != nil && r.cachedGaugeCardinalityGauge != nil && r.cachedHistogramCardinalityGauge != nil && r.cachedScopeCardinalityGauge != nil }
+//@ pred registryWF(r *scopeRegistry) { regWF0(r) && scopeWF(r.root) && r.root.registry == r && cardWF(r) }
 
+//@ func (*scopeRegistry).reportInternalMetrics$1
+//@   property C06
+//@   requires ss != nil
+//@   acquires ss.cm, ss.gm, ss.hm
+//@   modifies counters, gauges, histograms, rootCounters, rootGauges, rootHistograms, scopes
+//@   ensures @quiet quiet()
+
+//@ pred cardName(r *scopeRegistry, n string) { n == r.sanitizedCounterCardinalityName || n == r.sanitizedGaugeCardinalityName || n == r.sanitizedHistogramCardinalityName || n == r.sanitizedScopeCardinalityName }
+
+// The emission site of the cardinality gauges: whatever reaches a reporter here
+// carries one of the four names sanitized at construction and the registry's own
+// (sanitized, see newScopeRegistryWithShardCount) tag map, or goes to one of the
+// four handles allocated with them; nothing else is delivered.
 //@ func (*scopeRegistry).reportInternalMetrics
 //@   property C06
-//@   trusted
 //@   emits
 //@   requires registryWF(r)
+//@   ensures @prefix_kept forall j int :: 0 <= j && j < old(len(calls)) ==> calls[j] == old(calls[j])
+//@   ensures @omitted_means_silent r.omitCardinalityMetrics ==> quiet()
+//@   ensures @plain_deliveries_use_the_sanitized_names_and_tags forall p int :: old(len(calls)) <= p && p < len(calls) && samekind(calls[p], ev(StatsReporter.ReportGauge, r.root.reporter, "", r.cardinalityMetricsTags, frombits(0))) ==> (exists n string, v float64 :: cardName(r, n) && calls[p] == ev(StatsReporter.ReportGauge, r.root.reporter, n, r.cardinalityMetricsTags, v))
+//@   ensures @cached_deliveries_go_to_the_allocated_handles forall p int :: old(len(calls)) <= p && p < len(calls) && samekind(calls[p], ev(CachedGauge.ReportGauge, r.cachedScopeCardinalityGauge, frombits(0))) ==> (exists v float64 :: calls[p] == ev(CachedGauge.ReportGauge, r.cachedCounterCardinalityGauge, v) || calls[p] == ev(CachedGauge.ReportGauge, r.cachedGaugeCardinalityGauge, v) || calls[p] == ev(CachedGauge.ReportGauge, r.cachedHistogramCardinalityGauge, v) || calls[p] == ev(CachedGauge.ReportGauge, r.cachedScopeCardinalityGauge, v))
+//@   ensures @nothing_else_is_delivered forall p int :: old(len(calls)) <= p && p < len(calls) ==> samekind(calls[p], ev(StatsReporter.ReportGauge, r.root.reporter, "", r.cardinalityMetricsTags, frombits(0))) || samekind(calls[p], ev(CachedGauge.ReportGauge, r.cachedScopeCardinalityGauge, frombits(0))) || samekind(calls[p], evn("fn.call", 0, r.root))
 
 //@ pred rootWF(s *scope) { scopeWF(s) && s.registry != nil && registryWF(s.registry) && s.registry.root == s }
 
@@ -1075,6 +1093,9 @@ package tally
 //@   ensures @cardinality_names_sanitized result.sanitizedCounterCardinalityName == pcall(Sanitizer.Name, root.sanitizer, "tally.internal.counter_cardinality") && result.sanitizedGaugeCardinalityName == pcall(Sanitizer.Name, root.sanitizer, "tally.internal.gauge_cardinality") && result.sanitizedHistogramCardinalityName == pcall(Sanitizer.Name, root.sanitizer, "tally.internal.histogram_cardinality") && result.sanitizedScopeCardinalityName == pcall(Sanitizer.Name, root.sanitizer, "tally.internal.num_active_scopes")
 //@   ensures @cardinality_tags_sanitized result.cardinalityMetricsTags != nil && (forall k string :: k in result.cardinalityMetricsTags ==> cleanKey(root, k) && cleanValue(root, result.cardinalityMetricsTags[k]))
 //@   ensures @no_cached_reporter_no_allocation root.cachedReporter == nil || omitCardinalityMetrics ==> quiet()
+//@   ensures @cardinality_handles_allocated_with_the_sanitized_names_and_tags root.cachedReporter != nil && !omitCardinalityMetrics ==> len(calls) == old(len(calls)) + 4 && calls[old(len(calls))] == ev(CachedStatsReporter.AllocateGauge, root.cachedReporter, result.sanitizedCounterCardinalityName, result.cardinalityMetricsTags) && calls[old(len(calls))+1] == ev(CachedStatsReporter.AllocateGauge, root.cachedReporter, result.sanitizedGaugeCardinalityName, result.cardinalityMetricsTags) && calls[old(len(calls))+2] == ev(CachedStatsReporter.AllocateGauge, root.cachedReporter, result.sanitizedHistogramCardinalityName, result.cardinalityMetricsTags) && calls[old(len(calls))+3] == ev(CachedStatsReporter.AllocateGauge, root.cachedReporter, result.sanitizedScopeCardinalityName, result.cardinalityMetricsTags)
+//@   ensures @cardinality_handles_kept root.cachedReporter != nil && !omitCardinalityMetrics ==> same(result.cachedCounterCardinalityGauge, ires(old(len(calls)))) && same(result.cachedGaugeCardinalityGauge, ires(old(len(calls))+1)) && same(result.cachedHistogramCardinalityGauge, ires(old(len(calls))+2)) && same(result.cachedScopeCardinalityGauge, ires(old(len(calls))+3))
+//@   ensures @registry_invariant_for_the_cardinality_handles result.omitCardinalityMetrics == omitCardinalityMetrics && cardWF(result)
 //@   ensures @caller_tags_untouched forall k string :: (k in cardinalityMetricsTags) == old(k in cardinalityMetricsTags)
 //@   loop 1 invariant @registry r != nil && fresh(r) && r.root == root
 //@   loop 1 invariant @own_tag_map r.cardinalityMetricsTags != nil && fresh(r.cardinalityMetricsTags) && r.cardinalityMetricsTags != cardinalityMetricsTags
